@@ -338,6 +338,11 @@ func (w *StoreWorld) observe(opDesc string, refused bool) {
 			if i == 0 {
 				first = vs
 			}
+			if os.Getenv("VERIF_DEBUG_CANDS") != "" {
+				for _, v := range vs {
+					fmt.Fprintf(os.Stderr, "cand %d: %s\n", i, v.String())
+				}
+			}
 			if len(vs) == 0 {
 				chosen = i
 				break
